@@ -51,11 +51,17 @@ Definition emit_float (m : N) (e : Z) : str :=
 
 (* the spelling's value rounds to infinity in binary64: >= 2^1024 - 2^970 (half an ulp above f64::MAX) *)
 Definition F64_OVERFLOW : N := 2 ^ 1024 - 2 ^ 970.
-Definition overflows (m : N) (e : Z) : bool :=
+Definition overflows_exact (m : N) (e : Z) : bool :=
   match e with
   | Zneg p => F64_OVERFLOW * 10 ^ (Npos p) <=? m
   | _ => F64_OVERFLOW <=? m * 10 ^ (Z.to_N e)
   end.
+(* the bound has 309 digits: decided by the number of digits of the value wherever that is enough (1e999999 is not
+   expanded), exactly otherwise *)
+Definition overflows (m : N) (e : Z) : bool :=
+  if m =? 0 then false else
+  let top := (Z.of_nat (length (digits_of m)) + e)%Z in     (* 10^(top-1) <= m * 10^e < 10^top *)
+  if (310 <? top)%Z then true else if (top <? 309)%Z then false else overflows_exact m e.
 Definition s_inf : str := [105; 110; 102].
 (* what translate_literal emits for the float literal whose spelling denotes m * 10^e *)
 Definition emit_float_rust (m : N) (e : Z) : str := if overflows m e then s_inf else emit_float m e.
